@@ -27,7 +27,7 @@ def run():
         names = [n[4:] for n in harness1("names", {})["target_names"] if n != "sql.any"]
     opts = [None] + ["sql." + n for n in names]
     headers = [None, "sql.any"] + ["sql." + n for n in names] + HEADERS_UNKNOWN
-    progs = POOL if ck.thorough else (POOL[:20] + POOL[-4:])
+    progs = POOL      # every pool program in both tiers: each exercises a different dialect-consulting code path (loop -> WITH RECURSIVE, take, regex, dates, s-string relations ..)
     extra_prog_opts = [{"format": False}] + ([{"format": True}] if ck.thorough else [])
 
     # 1. what the resolver does with each header (and which string reaches def.other.target)
